@@ -987,6 +987,49 @@ theorem C15_resave_idem_pow2 (v : Vtf) (minor sheetVer : Nat) (asw : Bool) (file
       cases hfk
       exact ⟨_, rfl⟩), RA]
 
+/-! ## `compute_mipmaps` has no memory -/
+
+/-- **`compute_mipmaps` is a function of the current contents only.** In the model every step of a
+history (`stepOp`) maps the current state to the next one, so there is nothing else it could depend
+on; this theorem makes the dependency explicit: two objects that agree on their frames, thumbnail,
+flags, version, depth, frame count, mipmap count and thumbnail format get the same frames and
+thumbnail from `compute_mipmaps(filter)` — whatever was saved, computed or cleared before.
+(For the code this rests on the tie: the history correspondence runs the model as a state machine
+against one live `VTF` object; a memo such as "mipmaps already computed" shows up as a disagreement.) -/
+theorem C15_compute_pure (v w : Vtf) (filt : Nat) (hf : v.frames = w.frames) (hl : v.low = w.low)
+    (h1 : v.flags = w.flags) (h2 : v.verMinor = w.verMinor) (h3 : v.depth = w.depth)
+    (h4 : v.frameCount = w.frameCount) (h5 : v.mipCount = w.mipCount) (h6 : v.lowFmt = w.lowFmt) :
+    (applyCompute v filt).map (fun x => (x.frames, x.low))
+      = (applyCompute w filt).map (fun x => (x.frames, x.low)) := by
+  have hm : computeMips v filt = computeMips w filt := by
+    have hone : computeOne v filt = computeOne w filt := by
+      funext p
+      simp [computeOne, inComputeRange, hf, h1, h2, h3, h4, h5]
+    unfold computeMips
+    rw [hf, h1, h2, h3, h4, h5, hone]
+  have hlow : ∀ fr, computeLow v fr filt = computeLow w fr filt := by
+    intro fr; simp [computeLow, hl, h1, h5, h6]
+  unfold applyCompute
+  rw [hm]
+  cases computeMips w filt with
+  | error e => rfl
+  | ok frames =>
+    simp only [hlow]
+    cases computeLow w frames filt <;> rfl
+
+/-- **A cleared level is regenerated whenever `compute_mipmaps` runs**: if level `m+1` of
+`(f, d)` holds no data (cleared by `Frame.clear()` or `clear_mipmaps()`, at any time) and the sizes
+fit, its state afterwards is `scale_down` of the processed level `m` — never a stale or blank image. -/
+theorem C15_compute_regenerates (fr : List (Key × FrameM)) (filt f d m : Nat) (p cur : FrameM)
+    (out : List Nat) (hp : levelAfter fr filt f d m = .ok p)
+    (hl : lookupFrame fr (f, d, m + 1) = some cur) (hc : cur.data = none)
+    (hok : rescaleOK cur.w cur.h p.w p.h = true)
+    (hs : scaleDown filt p.w p.h cur.w cur.h (p.data.getD []) = some out) :
+    levelAfter fr filt f d (m + 1) = .ok { cur with data := some out } := by
+  rw [levelAfter, hp]
+  simp only [hl, hc, hok, Bool.not_true, Bool.false_eq_true, if_false, hs]
+  rfl
+
 /-! ## Non-vacuity: the hypotheses are satisfiable, and the laws visibly bite -/
 
 example : (⟨200, 100, 50, 129⟩ : Px).valid := by decide
